@@ -14,31 +14,34 @@ ID = "C17"
 PROP_FILE = "props/C17.v"
 RULE = ("assignments of pairwise distinct spellings to the eight configurable identifiers (root, fake root, current node, "
         "current key, union, intersection, filter context, keys selector) drawn from a pool of 1-3 character spellings "
-        "over ASCII symbols that belong to no fixed syntax ($ ^ @ # ~ % ; ` { }; non-ASCII signs are name characters), prefix-related pairs included "
+        "over the ASCII signs that belong to no fixed syntax ($ ^ @ # ~ % ; ` { } _ | &, not beginning with && or ||: "
+        "spec/TokensOk.v; non-ASCII signs are name characters), prefix-related pairs included "
         "(e.g. $ and $$, @ and @#) x generated queries that use every identifier (extended, compound) x 2 documents: the "
         "query rendered with those spellings and compiled in that environment must select the specification's nodes for "
         "the query (i.e. what the default spelling selects in the default environment), and its str() must recompile in "
         "that environment to a query with the same results and the same str(). non-trivial = at least one identifier is "
         "re-spelled; distinct = distinct (assignment, query text, documents)")
 TRUSTED = ["repr(float) as in C10"]
-ASSUMPTIONS = ["'non-overlapping' is read as: pairwise distinct, none equal to or containing fixed syntax (&&, ||, brackets, "
+ASSUMPTIONS = ["a keys-selector spelling beginning with '_' (a name character) overlaps with the name syntax after a dot and is not generated",
+               "'non-overlapping' is read as: pairwise distinct, none equal to or containing fixed syntax (&&, ||, brackets, "
                "quotes, operators, letters, digits, blanks); one spelling may be a prefix of another"]
 
-SYMS = ["$", "^", "@", "#", "~", "%", ";", "`", "{", "}"]
+SYMS = ["$", "^", "@", "#", "~", "%", ";", "`", "{", "}", "_", "|", "&"]
 NAMES = ["a", "b", "c", "d", "0", "1", "k", "s"]
 KEYS = ["root", "fake", "self", "key", "union", "inter", "fctx", "keys"]
 
 
 def pool():
-    out = list(SYMS) + ["|", "&"]
+    out = list(SYMS)
     for a in SYMS:
         for b in SYMS:
             out.append(a + b)
-    for a in SYMS[:5]:
-        for b in SYMS[:4]:
-            for c in SYMS[:3]:
+    for a in SYMS[:5] + ["_", "|", "&"]:
+        for b in SYMS[:4] + ["_", "|", "&"]:
+            for c in SYMS[:3] + ["_", "|"]:
                 out.append(a + b + c)
-    return out
+    # spec/TokensOk.v: not beginning with the fixed operators && and ||
+    return [t for t in dict.fromkeys(out) if not t.startswith("&&") and not t.startswith("||")]
 
 
 def gen_assignment(rng, P):
@@ -47,13 +50,19 @@ def gen_assignment(rng, P):
             # prefix-related family
             base = rng.choice(SYMS)
             fam = [base, base + rng.choice(SYMS), base + base, base + rng.choice(SYMS) + rng.choice(SYMS)]
+            fam = [t for t in fam if t in P]
             rest = rng.sample(P, 8)
             cand = list(dict.fromkeys(fam + rest))[:8]
         else:
             cand = rng.sample(P, 8)
         if len(set(cand)) == 8:
             rng.shuffle(cand)
-            return dict(zip(KEYS, cand))
+            a = dict(zip(KEYS, cand))
+            if a["keys"].startswith("_"):
+                # `._x` is the member named _x (name syntax): a keys spelling that begins with a name character
+                # overlaps with it in dot shorthand
+                continue
+            return a
 
 
 def gen(rng, tier):
